@@ -7,6 +7,11 @@
 
   The library answer `lib : Lib ℝ` (what `return_all` returned) and `rhoAmb` (`seawater.density`)
   are universally quantified: every statement holds whatever the equations of state return.
+  LABELS.  [T-def] marks a theorem that merely restates a branch of the model's definition at ℝ (it
+  pins the transcription; its force comes entirely from the correspondence that ties the model to
+  /repo).  Unlabelled theorems are compositional: they need induction over lists / call histories or
+  real-number reasoning beyond unfolding (cut-off by index, absorbing flag over any history, density
+  ratios, sum of cut coefficients, the falsity witness).
   NOT proved here (sampled by the harness only): finiteness / non-negativity of the library's
   outputs — they are properties of the equations of state, not of the wrapper.
 -/
@@ -31,7 +36,7 @@ private noncomputable def exLib : Lib ℝ :=
 
 -- ===================================================================== scaling by K and K_T
 
-/-- Mass-transfer coefficients returned are EXACTLY `K ·` the (cut-off) library coefficients and the
+/-- [T-def] Mass-transfer coefficients returned are EXACTLY `K ·` the (cut-off) library coefficients and the
     heat-transfer coefficient EXACTLY `K_T ·` the library one (`K_T` = the flag after the switch
     test of this call), soluble particle. -/
 theorem scaling_exact (par : Params ℝ) (KT : ℝ) (x : Inp ℝ) (lib : Lib ℝ) (rhoAmb : ℝ)
@@ -41,7 +46,7 @@ theorem scaling_exact (par : Params ℝ) (KT : ℝ) (x : Inp ℝ) (lib : Lib ℝ
     (properties par KT x lib rhoAmb).2.betaT = (properties par KT x lib rhoAmb).1 * lib.betaT := by
   simp [properties, hs, Num.smul]
 
-/-- Insoluble particle: no mass transfer at all (empty `Cs`, `beta`), heat transfer scaled by `K_T`. -/
+/-- [T-def] Insoluble particle: no mass transfer at all (empty `Cs`, `beta`), heat transfer scaled by `K_T`. -/
 theorem scaling_exact_insoluble (par : Params ℝ) (KT : ℝ) (x : Inp ℝ) (lib : Lib ℝ) (rhoAmb : ℝ)
     (hs : par.soluble = false) :
     (properties par KT x lib rhoAmb).2.beta = [] ∧ (properties par KT x lib rhoAmb).2.Cs = [] ∧
@@ -49,7 +54,7 @@ theorem scaling_exact_insoluble (par : Params ℝ) (KT : ℝ) (x : Inp ℝ) (lib
     (properties par KT x lib rhoAmb).2.us = lib.us ∧ (properties par KT x lib rhoAmb).2.rhoP = lib.rhoP := by
   simp [properties, hs]
 
-/-- Component-wise form: where the cut-off does not fire the returned coefficient is `K · β_i`. -/
+/-- [T-def] Component-wise form: where the cut-off does not fire the returned coefficient is `K · β_i`. -/
 theorem scaling_exact_component (par : Params ℝ) (KT : ℝ) (x : Inp ℝ) (lib : Lib ℝ) (rhoAmb : ℝ)
     (hs : par.soluble = true) (i : Nat) (b : ℝ)
     (hb : (betaCut par (query par KT x).2.m lib)[i]? = some b) :
@@ -64,7 +69,7 @@ example : (properties exPar 1 { m := [0.5, 0], T := 300, P := 1, Sa := 35, Ta :=
 
 -- ===================================================================== status from t_hyd
 
-/-- The library is asked for clean-interface correlations (`status = 1`) iff `t < t_hyd`,
+/-- [T-def] The library is asked for clean-interface correlations (`status = 1`) iff `t < t_hyd`,
     for dirty ones (`status = -1`) otherwise. -/
 theorem status_from_t_hyd (par : Params ℝ) (KT : ℝ) (x : Inp ℝ) :
     (query par KT x).2.clean = true ↔ x.t < par.tHyd := by
@@ -136,7 +141,7 @@ example : (betaCut exPar [0.0005, 0] exLib).getD 1 0 = 0.25 := by
 
 -- ===================================================================== dissolved-particle neutralisation
 
-/-- the code's condition at ℝ: released coefficients sum to zero and the released masses outweigh
+/-- [T-def] the code's condition at ℝ: released coefficients sum to zero and the released masses outweigh
     the unreleased ones -/
 theorem neutral_iff (par : Params ℝ) (mq : List ℝ) (lib : Lib ℝ) :
     neutral par mq lib ↔
@@ -144,7 +149,7 @@ theorem neutral_iff (par : Params ℝ) (mq : List ℝ) (lib : Lib ℝ) :
       (pick false par.m0 mq).sum < (pick true par.m0 mq).sum := by
   simp only [neutral, isZero_real, Num.real_sum]
 
-/-- EXACTLY under the code's condition a soluble particle reports zero slip velocity and the
+/-- [T-def] EXACTLY under the code's condition a soluble particle reports zero slip velocity and the
     ambient density; otherwise the library values pass through unchanged.
     (The statement "…once all released components are dissolved" at full strength is FALSE of model
     and code — see `dissolved_neutral_full_fails`; `dissolved_neutral_partial` is what holds.) -/
@@ -219,7 +224,7 @@ theorem dissolved_neutral_full_fails :
     obtain ⟨h1, h2⟩ := (dissolved_neutral wPar 1 wInp wLib 1030 rfl).2 hn
     refine ⟨h1, ?_, h2, ?_⟩ <;> simp [wLib] <;> norm_num
 
-/-- Area, solubilities and the temperature are never altered by the neutralisation. -/
+/-- [T-def] Area, solubilities and the temperature are never altered by the neutralisation. -/
 theorem neutral_leaves_rest (par : Params ℝ) (KT : ℝ) (x : Inp ℝ) (lib : Lib ℝ) (rhoAmb : ℝ)
     (hs : par.soluble = true) :
     (properties par KT x lib rhoAmb).2.A = lib.A ∧ (properties par KT x lib rhoAmb).2.Cs = lib.Cs := by
@@ -232,7 +237,7 @@ example : neutral exPar [0.0005, 0] exLib := by
 
 -- ===================================================================== the persistent flag K_T
 
-/-- One call switches the flag EXACTLY when `K_T > 0 ∧ |Ta − T| < 0.5`; otherwise it is unchanged. -/
+/-- [T-def] One call switches the flag EXACTLY when `K_T > 0 ∧ |Ta − T| < 0.5`; otherwise it is unchanged. -/
 theorem K_T_switch_iff (par : Params ℝ) (KT : ℝ) (x : Inp ℝ) (lib : Lib ℝ) (rhoAmb : ℝ) :
     (properties par KT x lib rhoAmb).1 = if 0 < KT ∧ |x.Ta - x.T| < 0.5 then 0 else KT := by
   have : (properties par KT x lib rhoAmb).1 = switchKT KT x.Ta x.T := by
@@ -378,7 +383,7 @@ example : ktTrace exPar 3
 
 -- ===================================================================== zero-mass shortcut
 
-/-- `PlumeParticle.update` with non-positive total mass: zero slip, ambient density, zero area,
+/-- [T-def] `PlumeParticle.update` with non-positive total mass: zero slip, ambient density, zero area,
     zero solubilities and coefficients (one per component), ambient temperature, zero
     biodegradation rates, flag untouched, library not consulted (`lib` is arbitrary). -/
 theorem zero_mass_shortcut (par : Params ℝ) (KT : ℝ) (x : Inp ℝ) (lib : Lib ℝ) (rhoAmb : ℝ)
@@ -391,7 +396,7 @@ theorem zero_mass_shortcut (par : Params ℝ) (KT : ℝ) (x : Inp ℝ) (lib : Li
   rw [if_neg hn]
   simp [zeros, Num.real_zero]
 
-/-- … and with positive total mass `update` is `properties` plus the biodegradation rates. -/
+/-- [T-def] … and with positive total mass `update` is `properties` plus the biodegradation rates. -/
 theorem update_positive_mass (par : Params ℝ) (KT : ℝ) (x : Inp ℝ) (lib : Lib ℝ) (rhoAmb : ℝ)
     (h : 0 < x.m.sum) :
     update par KT x lib rhoAmb =
@@ -413,7 +418,7 @@ theorem api_density_std (rhoConst gamma beta co rhoStp : ℝ) :
   simp only [density, Num.real_ofSci, Num.real_one, Num.real_exp]
   simp
 
-/-- standard conditions are 60 °F = 288.70555… K and 101325 Pa -/
+/-- [T-def] standard conditions are 60 °F = 288.70555… K and 101325 Pa -/
 theorem std_conditions : (Tstp : ℝ) = 273.15 + 140 / 9 ∧ (Pstp : ℝ) = 101325 := by
   simp only [Tstp, Pstp, Num.real_ofSci]
   constructor <;> norm_num
@@ -463,7 +468,7 @@ theorem density_pos (rhoConst gamma beta co rhoStp T P : ℝ)
   have h4 : (0 : ℝ) < 141.5 / (gamma + 131.5) := div_pos (by norm_num) h1
   exact mul_pos (mul_pos (mul_pos h4 hr) h3) h2
 
-/-- incompressible particle: the constant given at construction -/
+/-- [T-def] incompressible particle: the constant given at construction -/
 theorem incompressible_const (rhoConst gamma beta co rhoStp T P : ℝ) :
     density false rhoConst gamma beta co rhoStp T P = rhoConst := by
   simp [density]
